@@ -54,6 +54,13 @@ static void gen_mpf(ByteSource& in, F& x, size_t maxlimbs, CaseInfo& ci) {
   for (size_t i = 0; i < n; i++) x.f->_mp_d[i] = v[i]; x.f->_mp_size = neg ? -(int)n : (int)n; x.f->_mp_exp = n ? ex : 0; for (size_t i = n; i < (size_t)x.f->_mp_prec + 1; i++) x.f->_mp_d[i] = 0xdeadbeefdeadbeefull;   // stale limbs above the size are unspecified: poison
   x.v.m = Int::from_limbs(v.data(), n, neg); x.v.e = n ? 64 * (ex - (long)n) : 0;
 }
+// hand-built mpf holding exactly m * 2^e
+static void set_mpf_from_dy(F& x, const Dy& v) {
+  if (v.m.is_zero()) { x.f->_mp_size = 0; x.f->_mp_exp = 0; x.v = Dy{Int(0), 0}; return; }
+  long s = ((v.e % 64) + 64) % 64; Int M = ref::shl(v.m.abs(), (uint64_t)s); long E = v.e - s; size_t n = M.m.size();
+  mpf_set_prec(x.f, 64 * std::max<size_t>(n, 1)); for (size_t i = 0; i < n; i++) x.f->_mp_d[i] = M.m[i]; x.f->_mp_size = v.m.neg ? -(int)n : (int)n; x.f->_mp_exp = E / 64 + (long)n;
+  for (size_t i = n; i < (size_t)x.f->_mp_prec + 1; i++) x.f->_mp_d[i] = 0xdeadbeefdeadbeefull; x.v = v;
+}
 static Int trunc_int(const Dy& v) { return v.e >= 0 ? ref::shl(v.m, v.e) : ref::tshr(v.m, -v.e); }
 
 // ---- cases -------------------------------------------------------------------------------
@@ -139,7 +146,12 @@ static void case_f(ByteSource& in, CaseInfo& ci) {
     case 0: { unsigned rel = in.pick({3, 1}); if (rel == 1) { // same value, different representation (extra low zero limb)
         size_t n = std::abs(a.f->_mp_size); if (n) { mpf_set_prec(b.f, 64 * (n + 1)); b.f->_mp_d[0] = 0; for (size_t i = 0; i < n; i++) b.f->_mp_d[i + 1] = a.f->_mp_d[i]; b.f->_mp_size = a.f->_mp_size < 0 ? -(int)(n + 1) : (int)(n + 1); b.f->_mp_exp = a.f->_mp_exp; b.v = a.v; ci.label("mpf_cmp:equal_different_repr"); } }
       int g = mpf_cmp(a.f, b.f), e = cmp_dy(a.v, b.v); DESC(ci, " b=" + show(b.v.m, 40) + "*2^" + std::to_string(b.v.e)); REQUIRE(sgn3(g) == sgn3(e), "mpf_cmp: returned %d, exact sign %d", g, e); REQUIRE(sgn3(mpf_cmp(b.f, a.f)) == -sgn3(g), "mpf_cmp not antisymmetric"); break; }
-    case 1: { double d = gen_double(in, ci); ci.d(" d=%a", d); int e; if (std::isinf(d)) e = d > 0 ? -1 : 1; else e = cmp_dy(a.v, dy_of_double(d)); int g = mpf_cmp_d(a.f, d); REQUIRE(sgn3(g) == sgn3(e), "mpf_cmp_d: returned %d, exact sign %d", g, e); break; }
+    case 1: { double d = gen_double(in, ci);
+      if (std::isfinite(d) && d != 0.0 && in.chance(128)) {   // a next to d in value: equal, between d and 2d, a hair above or below (the only way a wrong decoding of d by a factor near 1 shows)
+        Dy dd = dy_of_double(d); unsigned k = in.pick({2, 2, 2, 2, 1}); Dy av = dd;
+        if (k == 1) av = Dy{dd.m * Int(3), dd.e - 1}; else if (k == 2) av = Dy{ref::shl(dd.m, 70) + Int(1), dd.e - 70}; else if (k == 3) av = Dy{ref::shl(dd.m, 70) - Int(1), dd.e - 70}; else if (k == 4) av = Dy{dd.m * Int(3), dd.e - 2};
+        set_mpf_from_dy(a, av); ci.label("mpf_cmp_d:a_next_to_d"); DESC(ci, " (a replaced by a value next to d: " + show(a.v.m, 40) + "*2^" + std::to_string(a.v.e) + ")"); }
+      ci.d(" d=%a", d); int e; if (std::isinf(d)) e = d > 0 ? -1 : 1; else e = cmp_dy(a.v, dy_of_double(d)); int g = mpf_cmp_d(a.f, d); REQUIRE(sgn3(g) == sgn3(e), "mpf_cmp_d: returned %d, exact sign %d", g, e); break; }
     case 2: { uint64_t v = in.flag() ? T.abs().low() + (uint64_t)in.range(0, 1) : PALETTE[in.u8() & 7]; ci.d(" ui=%llu", (unsigned long long)v); int g = mpf_cmp_ui(a.f, v), e = cmp_dy(a.v, Dy{Int::from_u64(v), 0}); REQUIRE(sgn3(g) == sgn3(e), "mpf_cmp_ui: returned %d, exact sign %d", g, e); break; }
     case 3: { int64_t v = in.flag() ? (int64_t)T.low() * (T.neg ? -1 : 1) : (int64_t)PALETTE[in.u8() & 7]; if (in.chance(30)) v = in.flag() ? INT64_MIN : INT64_MAX; ci.d(" si=%lld", (long long)v); int g = mpf_cmp_si(a.f, v), e = cmp_dy(a.v, Dy{Int((long long)v), 0}); REQUIRE(sgn3(g) == sgn3(e), "mpf_cmp_si: returned %d, exact sign %d", g, e); break; }
     case 4: { Z z; Int zz = in.flag() ? T + Int((long long)in.srange(-1, 1)) : gen_boundary_int(in, 6); mpz_from_int(z, zz); int g = mpf_cmp_z(a.f, z), e = cmp_dy(a.v, Dy{zz, 0}); REQUIRE(sgn3(g) == sgn3(e), "mpf_cmp_z: returned %d, exact sign %d", g, e); break; }
@@ -165,5 +177,5 @@ static void check(ByteSource& in, CaseInfo& ci) { switch (in.pick({5, 6, 5, 6}))
 namespace eng {
 PropDef g_prop = {"C11",
   "Cases: integers / rationals / hand-built mpf values at 0, +-1, +-2^k, +-2^k+-1,2 for k in {7,8,15,16,31,32,52,53,54,62,63,64,65,127,128,1023,1024,1074} and random; doubles from bit patterns (subnormals, 2^k neighbourhoods, halves, huge exponents, +-inf, +-0; never NaN) and doubles adjacent to the integer operand; values with more than 53 significant bits whose discarded part exceeds half an ulp; mpq_cmp_ui/si with common factors in num2/den2 and with the non-canonical equal value; mpf values in a different representation of the same number. Functions: mpz_cmp/cmpabs/_ui/_si/_d/sgn, mpz_set_ui/si/ux/sx/d, mpz_get_ui/si/ux/sx/d/d_2exp, the eight mpz_fits_*_p, mpq_cmp/_ui/_si/_z/equal/get_d, mpf_cmp/_d/_ui/_si/_z, mpf_get_d/d_2exp/si/ui, mpf_integer_p, the six mpf_fits_*_p. Oracle: refint exact rational comparison and exact IEEE truncation toward zero (infinity on overflow; below the normal range the exact subnormal truncation or 0.0 is accepted because the manual calls that range system dependent); get_si/get_ui outside the representable range is not asserted. Non-trivial: non-zero operand. Distinct = hash of all decoded choices.",
-  check, nullptr, {"double:subnormal", "double:near_2^k", "double:inf", "more_than_53_bits", "cmp_d:more_than_53_bits", "get_d:overflow", "get_d:below_normal_range", "cmp_ui:common_factor", "mpf:near_boundary", "mpf_cmp:equal_different_repr", "set_d:fraction"}};
+  check, nullptr, {"mpf_cmp_d:a_next_to_d", "double:subnormal", "double:near_2^k", "double:inf", "more_than_53_bits", "cmp_d:more_than_53_bits", "get_d:overflow", "get_d:below_normal_range", "cmp_ui:common_factor", "mpf:near_boundary", "mpf_cmp:equal_different_repr", "set_d:fraction"}};
 }
